@@ -77,14 +77,17 @@ theorem amount_lt (a j : ℕ) : (a : ℚ) / 10 ^ 8 = ((a * 10 ^ j : ℕ) : ℚ) 
 theorem amount_ge (a : ℕ) : (a : ℚ) / 10 ^ 8 = (a : ℚ) / ((10 ^ 8 : ℕ) : ℚ) := by push_cast; rfl
 
 /-- PARTIAL, send side.  `rn` stands for "the binary64 nearest to"; its only assumed property is the
-    spacing of doubles (two positive reals with the same nearest double differ by at most 2^-52 of the
-    larger).  The emitted numeral `m · 10^p` (normalised: `m` not divisible by ten) is assumed to parse
+    spacing of doubles *in the money range*: if `y ∈ [10^-8, 21·10^6]` (normal doubles, exponents
+    -27 … 24, far from subnormals and overflow) and a positive real `x` has the same nearest double as
+    `y`, then they differ by at most 2^-52 of the larger — both lie in the rounding interval of one
+    normal double `q`, whose width is at most `ulp(q) ≤ q · 2^-52` (absolutely: at most 2^-28).  The emitted numeral `m · 10^p` (normalised: `m` not divisible by ten) is assumed to parse
     back to the double that was formatted (`hrt`) and to be a shortest such numeral (`hshort`) — the
     contract of `float.__repr__`.  Then the numeral denotes exactly `a / 10^8`, for every amount in
     the money range. -/
 theorem repr_denotes_amount
     (rn : ℚ → ℚ)
-    (hspacing : ∀ x y : ℚ, 0 < x → 0 < y → rn x = rn y → |x - y| ≤ max x y / 2 ^ 52)
+    (hspacing : ∀ x y : ℚ, 0 < x → (1 : ℚ) / 10 ^ 8 ≤ y → y ≤ 21 * 10 ^ 6 → rn x = rn y →
+      |x - y| ≤ max x y / 2 ^ 52)
     (a : ℕ) (ha : 0 < a) (ha2 : a ≤ 21 * 10 ^ 14)
     (m : ℕ) (p : ℤ) (hm : m % 10 ≠ 0)
     (hrt : rn (decVal m p) = rn ((a : ℚ) / 10 ^ 8))
@@ -99,7 +102,14 @@ theorem repr_denotes_amount
   have hypos : (0 : ℚ) < (a : ℚ) / 10 ^ 8 := by
     have : (0 : ℚ) < a := by exact_mod_cast ha
     positivity
-  have hsp := hspacing _ _ hxpos hypos hrt
+  have hylo : (1 : ℚ) / 10 ^ 8 ≤ (a : ℚ) / 10 ^ 8 := by
+    apply div_le_div_of_nonneg_right _ (by positivity)
+    exact_mod_cast ha
+  have hyhi : (a : ℚ) / 10 ^ 8 ≤ 21 * 10 ^ 6 := by
+    rw [div_le_iff₀ (by positivity)]
+    have : (a : ℚ) ≤ 21 * 10 ^ 14 := by exact_mod_cast ha2
+    linarith
+  have hsp := hspacing _ _ hxpos hylo hyhi hrt
   by_cases hp : -8 ≤ p
   · -- the numeral is on the satoshi grid
     obtain ⟨j, hj⟩ : ∃ j : ℕ, p = (j : ℤ) - 8 := ⟨(p + 8).toNat, by omega⟩
